@@ -530,27 +530,35 @@ def _heap_rule(ctx, p, f, n, base, idx, itv, kind):
     return False, 'container', 'unclassified container subscript (%s)' % kind
 
 
-def _cumulative_walk(f):
-    """get_random_move: sum over the vector, sample reduced modulo that sum, then a cumulative walk over the same vector"""
-    sums = [n for n in f.all_nodes() if n['k'] == 'CompoundAssignOperator' and n.get('op') == '+=' and
-            canon(f, kids(n)[0], inline=False) == 'sum_of_weights']
-    samp = [n for n in f.all_nodes() if n['k'] == 'VarDecl' and n.get('name') == 'sample' and kids(n)]
-    ok = bool(sums) and len(samp) == 1
-    if ok:
-        e = strip_casts(kids(samp[0])[0])
-        while e['k'] in ('ImplicitCastExpr', 'CXXFunctionalCastExpr', 'CStyleCastExpr') and kids(e):
-            e = strip_casts(kids(e)[0])
-        ok = e['k'] == 'BinaryOperator' and e.get('op') == '%' and canon(f, kids(e)[1], inline=False) == 'sum_of_weights'
-    loops = [n for n in f.all_nodes() if n['k'] == 'WhileStmt']
-    if ok and len(loops) == 1:
-        c = canon(f, kids(loops[0])[0], inline=False).replace(' ', '')
-        ok = c.startswith('((i<moves.size())&&') and 'moves[i].second' in c and c.rstrip(')').endswith('sample')
-        b = canon(f, kids(loops[0])[1], inline=False).replace(' ', '')
-        post = [x for x in walk(kids(loops[0])[1]) if x['k'] == 'UnaryOperator' and x.get('op') == '++']
-        ok = ok and b in ('(w+=moves[++(i)].second)',) and len(post) == 1 and post[0].get('post')
-    else:
-        ok = False
-    return ok
+_CW = {}
+
+
+def _cumulative_walk(f, ctx=None):
+    """get_random_move: sum over the vector, sample reduced modulo that sum, then a cumulative walk over the same vector that stops
+    inside it — exactly what C19.R4 decides (sum, sample-range, cumulative-walk, all-zero), so those obligations are reused"""
+    if 'ok' not in _CW:
+        from rules.common import SubCtx
+        import props.C19 as c19
+
+        class _P:
+            tier = 'quick'
+
+            def prog(self, *a, **k):
+                return f.prog
+
+            def analysed(self, fn):
+                pass
+        sub = SubCtx(_P())
+        sub.prog = lambda *a, **k: f.prog
+        try:
+            c19.selection(sub, f.prog)
+        except AnalysisBroken:
+            _CW['ok'] = False
+            raise
+        need = {'C19.R4.sum', 'C19.R4.sample-range', 'C19.R4.cumulative-walk', 'C19.R4.all-zero', 'C19.R4.answer'}
+        got = {r[0]: r[2] for r in sub.results}
+        _CW['ok'] = all(got.get(k) for k in need)
+    return _CW['ok']
 
 
 def _order_moves_idx(f, idx):
